@@ -113,12 +113,41 @@ func readAllWays(text string) (map[string][]control.Paragraph, error) {
 		}
 	}
 	out["Decoder.Decode(&T) loop"] = ds
+	// the paragraph type itself is as good a slice element / target as a struct embedding it
+	var direct []control.Paragraph
+	if err := control.Unmarshal(&direct, strings.NewReader(text)); err != nil {
+		return nil, errf("Unmarshal(&[]control.Paragraph): %v", err)
+	}
+	if direct == nil {
+		direct = []control.Paragraph{}
+	}
+	out["Unmarshal(&[]control.Paragraph)"] = direct
+	dec2, err := control.NewDecoder(strings.NewReader(text), nil)
+	if err != nil {
+		return nil, errf("NewDecoder: %v", err)
+	}
+	dp := []control.Paragraph{}
+	for {
+		var p control.Paragraph
+		err := dec2.Decode(&p)
+		if err == io.EOF {
+			break
+		}
+		if err != nil {
+			return nil, errf("Decoder.Decode(&control.Paragraph): %v", err)
+		}
+		dp = append(dp, p)
+		if len(dp) > 10000 {
+			return nil, errf("Decode() does not terminate")
+		}
+	}
+	out["Decoder.Decode(&control.Paragraph) loop"] = dp
 	return out, nil
 }
 
 var specC07Model = Register(&Spec[DocCase]{
 	Prop: "C07", Name: "model",
-	Rule: "deb822 documents rendered from a model: 0..5 paragraphs of 1..6 uniquely named fields ([A-Za-z0-9][A-Za-z0-9_.+-]*), ':' + 0..3 blanks, first line text (possibly empty; may contain ':' '#' UTF-8) with trailing blanks, 0..6 continuation lines (marker space or tab, then ' .' or freely indented text, trailing blanks), '#' comment lines at every kind of line boundary, 1..3 blank lines between paragraphs, 0..2 before/after, LF or CRLF, final newline present or absent. Oracle: All(), a Next() loop, Unmarshal(&[]T) and a Decoder.Decode(&T) loop all return exactly the model paragraphs, and so does All() when the source is a one-byte-at-a-time reader, a half reader or a reader that delivers its last data together with io.EOF: Order = names in file order, value = first line if no continuation else logical lines joined by newline + trailing newline (a kept empty first line is accepted too). Non-trivial: >= 2 paragraphs, a continuation, a comment inside a field, CRLF or no final newline; distinct by text.",
+	Rule: "deb822 documents rendered from a model: 0..5 paragraphs of 1..6 uniquely named fields ([A-Za-z0-9][A-Za-z0-9_.+-]*), ':' + 0..3 blanks, first line text (possibly empty; may contain ':' '#' UTF-8) with trailing blanks, 0..6 continuation lines (marker space or tab, then ' .' or freely indented text, trailing blanks), '#' comment lines at every kind of line boundary, 1..3 blank lines between paragraphs, 0..2 before/after, LF or CRLF, final newline present or absent. Oracle: All(), a Next() loop, Unmarshal(&[]T) and a Decoder.Decode(&T) loop (T a struct embedding control.Paragraph, and T = control.Paragraph itself) all return exactly the model paragraphs, and so does All() when the source is a one-byte-at-a-time reader, a half reader or a reader that delivers its last data together with io.EOF: Order = names in file order, value = first line if no continuation else logical lines joined by newline + trailing newline (a kept empty first line is accepted too). Non-trivial: >= 2 paragraphs, a continuation, a comment inside a field, CRLF or no final newline; distinct by text.",
 	Check: func(c DocCase, r *Recorder) error {
 		nt := false
 		for _, f := range c.Feats {
@@ -135,7 +164,7 @@ var specC07Model = Register(&Spec[DocCase]{
 		if err != nil {
 			return errf("well-formed document %q: %v", c.Text, err)
 		}
-		for _, how := range []string{"All()", "Next() loop", "Unmarshal(&[]T)", "Decoder.Decode(&T) loop"} {
+		for _, how := range []string{"All()", "Next() loop", "Unmarshal(&[]T)", "Decoder.Decode(&T) loop", "Unmarshal(&[]control.Paragraph)", "Decoder.Decode(&control.Paragraph) loop"} {
 			if err := parasMatch(ways[how], c.Want, how); err != nil {
 				return errf("document %q: %v", c.Text, err)
 			}
@@ -343,7 +372,7 @@ var specC07Edge = Register(&Spec[DocCase]{
 		if err != nil {
 			return errf("well-formed document of %d bytes (padding field in front): %v", len(c.Text), err)
 		}
-		for _, how := range []string{"All()", "Next() loop", "Unmarshal(&[]T)", "Decoder.Decode(&T) loop"} {
+		for _, how := range []string{"All()", "Next() loop", "Unmarshal(&[]T)", "Decoder.Decode(&T) loop", "Unmarshal(&[]control.Paragraph)", "Decoder.Decode(&control.Paragraph) loop"} {
 			if err := parasMatch(ways[how], c.Want, how); err != nil {
 				return errf("document of %d bytes with a %d-byte padding line: %v", len(c.Text), len(c.Want[0].Values["Pad-Field"]), err)
 			}
